@@ -150,6 +150,13 @@ struct Monitor {
     published: BTreeMap<usize, usize>,
     world_stops: u64,
     scans: u64,
+    /// stop requests that have reached every registered thread and have not
+    /// been lifted yet
+    stops_in_force: u64,
+    /// child most recently spawned by each thread, and threads that the parent
+    /// has entered into the runtime's thread list
+    last_spawned: BTreeMap<usize, usize>,
+    registered: std::collections::BTreeSet<usize>,
 }
 
 static MONITOR: Mutex<Option<Monitor>> = Mutex::new(None);
@@ -239,9 +246,38 @@ fn h_point(site: u32, arg: usize) {
             sched::yield_point_ex(site, 0, false);
         }
         vs::SP_RETRACTED | vs::ES_RETRACTED | vs::ESO_RETRACTED => {
+            // the pointer is gone; the thread looks at the flag once more before
+            // it goes on (see leave_safepoint), so it is not "running" yet
             monitor(|m| {
                 m.published.remove(&me);
             });
+            sched::yield_point_ex(site, 0, false);
+        }
+        vs::SP_EXIT | vs::ES_EXIT => {
+            // from here on the thread runs script code again
+            let (stops, registered) = monitor(|m| (m.stops_in_force, me == 0 || m.registered.contains(&me)));
+            if stops > 0 && !registered {
+                report::violation(
+                    "C15/unregistered-thread-ran-during-stop",
+                    format!(
+                        "t{} (started by its parent but not yet entered into the runtime's thread list) runs script code at {} while {} stop request(s) are in force: it was neither paused nor scanned, and a global update made by the stopper does not reach its global table",
+                        me,
+                        steel::verif::site_name(site),
+                        stops
+                    ),
+                );
+            }
+            if stops > 0 {
+                report::violation(
+                    &format!("C15/left-safepoint-during-stop/{}", steel::verif::site_name(site)),
+                    format!(
+                        "t{} left its safepoint at {} while {} stop request(s) were in force (every registered thread had been told to pause and had not been resumed)",
+                        me,
+                        steel::verif::site_name(site),
+                        stops
+                    ),
+                );
+            }
             check_not_scanned(site);
             sched::yield_point_ex(site, 0, true);
         }
@@ -267,7 +303,16 @@ fn h_point(site: u32, arg: usize) {
             });
             sched::yield_point_ex(site, 0, false);
         }
-        vs::STOP_BEGIN | vs::STOP_END | vs::RESUME_BEGIN | vs::RESUME_END => {
+        vs::STOP_END => {
+            // every registered thread has been told to pause
+            monitor(|m| m.stops_in_force += 1);
+            sched::yield_point_ex(site, 0, false);
+        }
+        vs::RESUME_BEGIN => {
+            monitor(|m| m.stops_in_force = m.stops_in_force.saturating_sub(1));
+            sched::yield_point_ex(site, 0, false);
+        }
+        vs::STOP_BEGIN | vs::RESUME_END => {
             sched::yield_point_ex(site, 0, false);
         }
         vs::WORLD_STOP_BEGIN => {
@@ -288,6 +333,11 @@ fn h_point(site: u32, arg: usize) {
             sched::yield_point_ex(site, 0, false);
         }
         vs::THREAD_REGISTERED => {
+            monitor(|m| {
+                if let Some(c) = m.last_spawned.get(&me).copied() {
+                    m.registered.insert(c);
+                }
+            });
             sched::yield_point_ex(site, 0, true);
         }
         vs::THREAD_BODY_BEGIN => {
@@ -424,8 +474,12 @@ fn rc_dealloc(_addr: usize) -> bool {
     false
 }
 fn rc_prepare() {
-    if sched::current().is_some() {
-        sched::spawn_prepare();
+    if let Some(parent) = sched::current() {
+        if let Some(child) = sched::spawn_prepare() {
+            monitor(|m| {
+                m.last_spawned.insert(parent, child);
+            });
+        }
         report::probe("thread.spawned");
     }
 }
